@@ -35,6 +35,9 @@ PROPS = {
     'C09': {'chunk': 6000}, 'C10': {'chunk': 4000}, 'C11': {'chunk': 4000}, 'C12': {'chunk': 4000},
     'C07': {'chunk': 20000, 'quick_cfgs': ['clang++-O1-c++17-san', 'g++-O2-c++20-san', 'clang++-O2-c++20'],
             'thorough_cfgs': [c['id'] for c in CONFIGS if c['san']] + ['g++-O2-c++17', 'clang++-O3-c++20', 'g++-O0-c++17-abacus']},
+    'C08': {'chunk': 20000, 'xcfg': True, 'gen_as': 'C07',
+            'quick_cfgs': ['g++-O2-c++17', 'clang++-O2-c++20', 'g++-O0-c++17-abacus', 'clang++-O0-c++2b', 'g++-O3-c++20', 'clang++-O1-c++17-abacus'],
+            'thorough_cfgs': [c['id'] for c in CONFIGS if not c['san']]},
     'C17': {'chunk': 20000, 'simulate': {'quick': 4000, 'thorough': 150000}},
     'C05': {'chunk': 8000}, 'C16': {'chunk': 8000},
     'C14': {'chunk': 10000}, 'C19': {'chunk': 5000}, 'C20': {'chunk': 4000},
